@@ -8,6 +8,8 @@ package main
 //   kill      x       the child of run 1 dies only at its X step
 //             e<k>    the child of run 1 SIGKILLs itself right after writing its k-th trace record
 //             t<us>   the parent SIGKILLs the child of run 1 <us> microseconds after it finished its start-up scan
+//             r<k>    the child of run 1 runs under strace and is SIGKILLed on entering its k-th rename (offsets save)
+//             f<k>    … on entering its k-th fsync (offsets save; the trace log is not fsync'ed in this mode)
 //   line table: every line that is ever written (id = its "n" field, stream = its "stream" field)
 //   steps     C f      create file f (empty)                A f hex  append bytes to file f
 //             R f g    rename file f away, create g at its old path      T f   truncate f to 0
@@ -23,7 +25,7 @@ package main
 //   the last crash and the line ends at or before the minimum saved offset, 1 = anything else.
 //
 // records: up | disc f | scan | new f | app f hex | ren f g | trunc f | in f off pass | out f off seq id |
-//   ack f off id | com f off | eof f size | idle | stuck | crash | saved f n (streamhex off)… | died
+//   ack f off id | com f off id | eof f size | idle | stuck | crash | saved f n (streamhex off)… | died
 
 import (
 	"bufio"
@@ -544,13 +546,25 @@ func execC03(t *hx.Toks) string {
 // runs one child; returns (killed by SIGKILL, exit code)
 func c03RunChild(c *c03Case, dir string, run int, trace string) (bool, int) {
 	cmd := exec.Command(os.Args[0], "c03child", dir, strconv.Itoa(run))
+	env := append(os.Environ(), "LOG_LEVEL=error")
+	if run == 1 && len(c.kill) > 1 && (c.kill[0] == 'r' || c.kill[0] == 'f') {
+		if st, err := exec.LookPath("strace"); err == nil {
+			calls := "rename,renameat,renameat2"
+			if c.kill[0] == 'f' {
+				calls = "fsync"
+			}
+			cmd = exec.Command(st, "-f", "-o", "/dev/null", "-e", "trace="+calls,
+				"-e", "inject="+calls+":signal=KILL:when="+c.kill[1:], os.Args[0], "c03child", dir, strconv.Itoa(run))
+			env = append(env, "C03_NOSYNC=1")
+		}
+	}
 	errf, _ := os.Create(filepath.Join(dir, fmt.Sprintf("stderr%d.log", run)))
 	if errf != nil {
 		defer errf.Close()
 	}
 	cmd.Stderr = errf
 	cmd.Stdout = errf
-	cmd.Env = append(os.Environ(), "LOG_LEVEL=error")
+	cmd.Env = env
 	if err := cmd.Start(); err != nil {
 		return false, 99
 	}
@@ -634,6 +648,7 @@ type c03Child struct {
 	trace   *os.File
 	nrec    int
 	killAt  int
+	noSync  bool
 	mu      sync.Mutex // serialises PassEvent / Commit / Out with their trace records
 	fp      *file.Plugin
 	octl    pipeline.OutputPluginController
@@ -654,7 +669,7 @@ func (h *c03Child) die() {
 func (h *c03Child) rec(sync bool, do func(), format string, a ...any) {
 	h.logMu.Lock()
 	fmt.Fprintf(h.trace, format+"\n", a...)
-	if sync {
+	if sync && !h.noSync {
 		_ = h.trace.Sync()
 	}
 	h.nrec++
@@ -716,9 +731,16 @@ func (w *c03Input) Commit(e *pipeline.Event) {
 	h := w.h
 	h.mu.Lock()
 	defer h.mu.Unlock()
-	f, off := h.fileOf(uint64(e.SourceID)), e.Offset
+	f, off, id := h.fileOf(uint64(e.SourceID)), e.Offset, c03EventID(e)
 	w.fp.Commit(e)
-	h.rec(false, nil, "com %d %d", f, off)
+	h.rec(false, nil, "com %d %d %d", f, off, id)
+}
+
+func c03EventID(e *pipeline.Event) int {
+	if n := e.Root.Dig("n"); n != nil {
+		return n.AsInt()
+	}
+	return -1
 }
 
 type c03Output struct{ h *c03Child }
@@ -731,10 +753,7 @@ func (o *c03Output) Out(e *pipeline.Event) {
 	h := o.h
 	h.mu.Lock()
 	defer h.mu.Unlock()
-	id := -1
-	if n := e.Root.Dig("n"); n != nil {
-		id = n.AsInt()
-	}
+	id := c03EventID(e)
 	p := &c03Pending{ev: e, f: h.fileOf(uint64(e.SourceID)), off: e.Offset, id: id, stream: string(e.StreamNameBytes())}
 	h.pending = append(h.pending, p)
 	h.outs[c03Key(p.f, p.stream)]++
@@ -921,6 +940,7 @@ func c03ChildMain(dir string, run int) {
 	if err != nil {
 		os.Exit(4)
 	}
+	h.noSync = os.Getenv("C03_NOSYNC") != ""
 	if run == 1 && strings.HasPrefix(c.kill, "e") {
 		h.killAt, _ = strconv.Atoi(c.kill[1:])
 	}
